@@ -192,7 +192,13 @@ func init() {
 			return nil
 		},
 		"verifSetTag": func(fr *Frame, a []Value) Value {
-			fr.it.env.tag = concStr(a[0], "verifSetTag")
+			e := fr.it.env
+			for _, n := range e.nodes {
+				if !n.isDir && n.file != nil {
+					n.file.attributeMapped(e.tag)
+				}
+			}
+			e.tag = concStr(a[0], "verifSetTag")
 			return nil
 		},
 		"verifFSLen": func(fr *Frame, a []Value) Value {
@@ -238,11 +244,9 @@ func init() {
 						tot += r.n
 					}
 				}
-				// writes through a mapping carry no tag: counted for the untagged query and for the
-				// put/delete query (mmap harnesses use no batches)
-				if pre == "" || pre == "pd" {
-					tot += n.file.mappedUnsynced()
-				}
+				// writes through a mapping are charged to the tag active when they happened
+				n.file.attributeMapped(e.tag)
+				tot += n.file.mappedUnsyncedTag(pre)
 			}
 			return uint64(tot)
 		},
@@ -275,6 +279,11 @@ func init() {
 				return uint64(0)
 			}
 			return uint64(e.ops[i].Thr)
+		},
+		"verifTick": func(fr *Frame, a []Value) Value {
+			// harness-owned logical clock: no switch point, no race-detector access
+			fr.it.env.tick++
+			return uint64(fr.it.env.tick)
 		},
 		"verifThreadID": func(fr *Frame, a []Value) Value {
 			if fr.it.sched == nil || fr.it.sched.cur == nil {
